@@ -59,6 +59,12 @@ def mixed_program(rng, u, depth=0, allow_pos=True, size=None, macros=None, comme
                     m = rng.choice(sorted(macros))
                     if macros[m] == 0 and m != name:
                         body.append(pp.bt("use", m))
+                elif q < 0.93 and body and body[-1]["k"] == "lit":
+                    # a conditional inside the body (chosen when the expansion is rescanned); directly behind a plain token only
+                    def br():
+                        return [pp.bt("lit", "c%d" % rng.randint(0, 99)) for _ in range(rng.randint(0, 2))]
+                    body.append({"k": "cond", "n": rng.choice(["A", "B", "C"]), "s": rng.choice(["ifdef", "ifndef"]), "g": False,
+                                 "a": [{"k": "grp", "n": "", "a": br(), "g": False, "s": ""}, {"k": "grp", "n": "", "a": br(), "g": False, "s": ""}]})
                 else:
                     body.append(pp.bt("lit", rng.choice(["+", "-", ";"])))
             if comments and rng.random() < 0.2:
